@@ -4,6 +4,7 @@ import XV.Lemmas.UndoObs
 import XV.Lemmas.UndoFee
 import XV.Lemmas.UndoBlock
 import XV.Lemmas.UndoWalk
+import XV.Lemmas.RefinePlay
 /-!
 C01 — the state at a block is a pure function of its chain: undoing exactly cancels playing.
 
@@ -1534,5 +1535,144 @@ example :
     let s : St := { applyPool wkEnv4 [22] (canon wkEnv4 wkG 2) with pool := [22] }
     (play wkEnv4 s 0 (wkEnv4.block 4)).2 = .utxo ∧ (play wkEnv4 s 0 (wkEnv4.block 4)).1.pool = [22] ∧
     (todoBlock wkEnv4 (canon wkEnv4 wkG 2) 0 (wkEnv4.block 4)).isSome = false := by decide
+
+-- ================================================================== `play` with a non-empty pool: the refinement
+
+private theorem txWF_iff (e : Env) (i : Nat) : TxWF e i ↔ WF e i :=
+  ⟨fun h => ⟨h.id, h.self, h.kout⟩, fun h => ⟨h.id, h.self, h.kout⟩⟩
+
+private theorem poolValid_iff (e : Env) (l : List Nat) (s : St) : PoolValid e l s ↔ PoolOK e l s := by
+  induction l generalizing s with
+  | nil => exact Iff.rfl
+  | cons i rest ih =>
+    unfold PoolValid PoolOK
+    rw [ih, txWF_iff]
+    exact Iff.rfl
+
+/-- **`play` (`PlayAndRepost`) with a NON-EMPTY pool keeps the node on "canonical state + pool".** Block tree with parent
+links strictly down in height; `b` is known to the environment under its id. With `R = canon e g s.pointer` the
+canonical state of the tip: the state refines "`R`, then the pool applied in admission order" (`hs`); the pool satisfies
+the side conditions of the transaction theorems on `R` (`PoolValid`) and has no repetition; the chain of the tip and the
+block `b` on top of it satisfy the side conditions of the block theorem (`ChainValid`, `BlockValid`: `b` can be replayed on
+`R` — a fresh replica accepts it); identifiers are fresh: no row and no key version of `R` carries the id of a pending
+transaction or of a transaction of the block (`hfreshU`, `hfreshV`; the rows of the block's ids are in `BlockValid`); the
+rows of `R` carry the frozen heights their transactions declare and the pending transactions cite them (`FrozenInv`,
+`StaticFrozen`: the frozen height of a spent row is not compared by the code, see DESIGN.md).
+
+Then, if `play` ACCEPTS `b` — whatever it evicts (the conflicting pending transactions and the closure of their
+dependents, undone newest first), skips (the pending members of the block) and re-applies (members rolled back as
+dependents) —: the pointer is `b.id`; the state refines "the canonical state of `b`, then the NEW pool applied in order";
+the new pool is the old one without the block's and the evicted transactions, and satisfies `PoolValid` on the canonical
+state of `b` — the precondition is re-established, so admissions, walks and further blocks can follow. -/
+theorem play_refines (e : Env) (s : St) (lh : Int) (b : Block) (g : St) (hpl : ParentLower e)
+    (hb : e.block b.id = b) (hok : (play e s lh b).2 = .ok) (hinv : KVInv e g)
+    (hchain : ChainValid e (ancestors e (e.blocks.length + 1) s.pointer).reverse g)
+    (hblk : BlockValid e (canon e g s.pointer) b)
+    (hpool : PoolValid e s.pool (canon e g s.pointer)) (hnd : s.pool.Nodup)
+    (hs : TRefines s (applyPool e s.pool (canon e g s.pointer)))
+    (hfreshU : ∀ i ∈ s.pool, ∀ o, lookup (canon e g s.pointer).U (i, o) = none)
+    (hfreshV : ∀ i ∈ s.pool ++ b.txs, ∀ k o, curVer (canon e g s.pointer) k ≠ some (i, o))
+    (hfz : FrozenInv e (canon e g s.pointer)) (hsf : ∀ i ∈ s.pool, StaticFrozen e i) :
+    (play e s lh b).1.pointer = b.id ∧
+    TRefines (play e s lh b).1 (applyPool e (play e s lh b).1.pool (canon e g b.id)) ∧
+    PoolValid e (play e s lh b).1.pool (canon e g b.id) ∧
+    (play e s lh b).1.pool = s.pool.filter (fun i => !b.txs.contains i && !(playEvict e s b).contains i) := by
+  have hR := replayChain_KVInv e _ g hchain hinv
+  have hP := (poolValid_iff e _ _).mp hpool
+  have hwP := hP.wf
+  -- the eviction is the roll-back of a suffix
+  obtain ⟨tE, pK, pEv⟩ := play_evict_form e s b (canon e g s.pointer) hP hnd hfreshU hfz hsf
+  have hKV : KVInv e (applyPool e (s.pool.filter (fun i => !(playEvict e s b).contains i)) (canon e g s.pointer)) :=
+    applyPool_KVInv e _ _ (fun i hi => (hwP i (List.mem_filter.mp hi).1).id) hR
+  have hs1 : TRefines (playUndone e s b)
+      (applyPool e (s.pool.filter (fun i => !(playEvict e s b).contains i)) (canon e g s.pointer)) := by
+    rw [playUndone_eq]
+    exact rollback_applyPool e _ _ ((poolValid_iff e _ _).mpr pEv) hKV s (hs.trans tE.trefines)
+  -- the block
+  obtain ⟨lhb, s2b, hfwd⟩ := hblk.fwd
+  have hB := pValid_of_applyBlockTxs e lhb b.prop b.txs _ s2b hfwd
+  have hwB : ∀ i ∈ b.txs, WF e i := fun i hi => (txWF_iff e i).mp (hblk.wf i hi)
+  have hfU : ∀ i ∈ s.pool ++ b.txs, ∀ o, lookup (canon e g s.pointer).U (i, o) = none := by
+    intro i hi o
+    rcases List.mem_append.mp hi with h | h
+    · exact hfreshU i h o
+    · exact hblk.fresh i h o
+  obtain ⟨a1, a2, a3⟩ := play_absorb_form e s lh b (canon e g s.pointer) hok hP hnd pK hs1 hB hwB hblk.nodup hfU
+    hfreshV hfz hsf
+  obtain ⟨s2, _, hshape⟩ := play_ok_raw e s lh b hok
+  have hpre : b.pre = some s.pointer := by
+    unfold play at hok
+    by_cases h1 : b.pre ≠ some s.pointer
+    · rw [if_pos h1] at hok; cases hok
+    · simpa using h1
+  have hcanon : canon e g b.id = replayBlock e (canon e g s.pointer) b := by
+    rw [canon_child e g hpl b.id s.pointer (by rw [hb]; exact hpre), hb]
+  have hT : TabEq (replayTxs e b.prop b.txs (canon e g s.pointer)) (canon e g b.id) := by
+    rw [hcanon]
+    exact TabEq.of_tables (x := replayBlock e (canon e g s.pointer) b) ⟨rfl, rfl, rfl, rfl⟩
+  refine ⟨by rw [hshape], ?_, ?_, ?_⟩
+  · exact a2.trans (applyPool_tabEq e _ _ _ hT).trefines
+  · exact (poolValid_iff e _ _).mpr (poolOK_tabEq e _ _ _ hT a3)
+  · rw [hshape]
+
+-- non-vacuity of `play_refines`: genesis rows (0,0) (0,1) (0,2); the node is at block 1 with FIVE pending transactions:
+-- 21 (spends (0,0), creates key "k", pays a fee), 22 (spends an output of 21, overwrites "k"), 23 (spends (0,1)),
+-- 24 (spends (0,2)), 26 (spends the output of 24). Block 2 = award 20, the pending 21, and the NEW transaction 25 that
+-- spends (0,2) too: `play` accepts it, evicts 24 (conflict) and 26 (dependent), skips 21, applies 20 and 25, keeps 22, 23.
+private def prEnv : Env := {
+  txs := [
+    (20, ⟨20, true, [], [⟨"m2", 10, 0⟩], [], []⟩),
+    (21, ⟨21, false, [⟨0, 0, "u0", 5, 0, false⟩], [⟨"u1", 4, 0⟩, ⟨"$", 1, 0⟩], [⟨"k", none⟩], [⟨"k", "a", false⟩]⟩),
+    (22, ⟨22, false, [⟨21, 0, "u1", 4, 0, false⟩], [⟨"u2", 4, 0⟩], [⟨"k", some (21, 0)⟩], [⟨"k", "b", false⟩]⟩),
+    (23, ⟨23, false, [⟨0, 1, "u0", 4, 0, false⟩], [⟨"u3", 4, 0⟩], [], []⟩),
+    (24, ⟨24, false, [⟨0, 2, "u0", 3, 0, false⟩], [⟨"u4", 3, 0⟩], [], []⟩),
+    (25, ⟨25, false, [⟨0, 2, "u0", 3, 0, false⟩], [⟨"u5", 2, 0⟩, ⟨"$", 1, 0⟩], [⟨"j", none⟩], [⟨"j", "c", false⟩]⟩),
+    (26, ⟨26, false, [⟨24, 0, "u4", 3, 0, false⟩], [⟨"u6", 3, 0⟩], [], []⟩)],
+  blocks := [(1, ⟨1, none, 1, [], "m1"⟩), (2, ⟨2, some 1, 2, [20, 21, 25], "m2"⟩)] }
+private def prG : St := { U := [((0, 0), ⟨"u0", 5, 0⟩), ((0, 1), ⟨"u0", 4, 0⟩), ((0, 2), ⟨"u0", 3, 0⟩)], total := 12 }
+private def prPool : List Nat := [21, 22, 23, 24, 26]
+private def prS : St := { applyPool prEnv prPool (canon prEnv prG 1) with pool := prPool }
+
+example : ParentLower prEnv := parentLower_of_blocks _ (by decide)
+example : prEnv.block (prEnv.block 2).id = prEnv.block 2 ∧ prS.pointer = 1 ∧ prS.pool = prPool ∧ prS.pool.Nodup ∧
+    (play prEnv prS 0 (prEnv.block 2)).2 = .ok ∧ playEvict prEnv prS (prEnv.block 2) = [24, 26] := by decide
+example : KVInv prEnv prG := KVInv_empty prEnv prG rfl rfl
+example : ChainValid prEnv (ancestors prEnv (prEnv.blocks.length + 1) prS.pointer).reverse prG := by
+  have h1 : (ancestors prEnv (prEnv.blocks.length + 1) prS.pointer).reverse = [1] := by decide
+  rw [h1]
+  refine ⟨⟨⟨0, fwd_of_res _ _ _ _ _ (by decide)⟩, ?_, by decide, ?_, by decide⟩, trivial⟩
+  · intro i hi; simp [prEnv, Env.block, lookup] at hi
+  · intro i hi; simp [prEnv, Env.block, lookup] at hi
+example : BlockValid prEnv (canon prEnv prG prS.pointer) (prEnv.block 2) := by
+  refine ⟨⟨0, fwd_of_res _ _ _ _ _ (by decide)⟩, ?_, by decide, ?_, by decide⟩
+  · intro i hi
+    have : i = 20 ∨ i = 21 ∨ i = 25 := by simpa [prEnv, Env.block, lookup] using hi
+    rcases this with rfl | rfl | rfl <;> exact ⟨by decide, by decide, by decide⟩
+  · intro i hi
+    have : i = 20 ∨ i = 21 ∨ i = 25 := by simpa [prEnv, Env.block, lookup] using hi
+    rcases this with rfl | rfl | rfl <;> exact absent_of_rows _ _ (by decide)
+example : PoolValid prEnv prS.pool (canon prEnv prG prS.pointer) :=
+  ⟨⟨0, by decide⟩, ⟨by decide, by decide, by decide⟩, absent_of_rows _ _ (by decide), by decide,
+   ⟨0, by decide⟩, ⟨by decide, by decide, by decide⟩, absent_of_rows _ _ (by decide), by decide,
+   ⟨0, by decide⟩, ⟨by decide, by decide, by decide⟩, absent_of_rows _ _ (by decide), by decide,
+   ⟨0, by decide⟩, ⟨by decide, by decide, by decide⟩, absent_of_rows _ _ (by decide), by decide,
+   ⟨0, by decide⟩, ⟨by decide, by decide, by decide⟩, absent_of_rows _ _ (by decide), by decide, trivial⟩
+example : TRefines prS (applyPool prEnv prS.pool (canon prEnv prG prS.pointer)) :=
+  (TRefines.refl _).of_tables ⟨rfl, rfl, rfl, rfl⟩ ⟨rfl, rfl, rfl, rfl⟩
+example : ∀ i ∈ prS.pool, ∀ o, lookup (canon prEnv prG prS.pointer).U (i, o) = none :=
+  fun i hi => absent_of_rows _ i (by revert i hi; decide)
+example : ∀ i ∈ prS.pool ++ (prEnv.block 2).txs, ∀ k o, curVer (canon prEnv prG prS.pointer) k ≠ some (i, o) :=
+  fun i hi => verFresh_of_rows _ i (by revert i hi; decide) (by revert i hi; decide)
+example : FrozenInv prEnv (canon prEnv prG prS.pointer) := frozenInv_of_rows _ _ (by decide)
+example : ∀ i ∈ prS.pool, StaticFrozen prEnv i := by decide
+-- and the conclusion, computed: the new pool is [22, 23]; rows, keys and total are those of block 2 replayed on a fresh
+-- node with 22 and 23 applied on top
+example :
+    let p := (play prEnv prS 0 (prEnv.block 2)).1
+    let c := applyPool prEnv [22, 23] (canon prEnv prG 2)
+    p.pointer = 2 ∧ p.pool = [22, 23] ∧ p.total = c.total ∧ (∀ k ∈ ["k", "j"], lookup p.ZU k = lookup c.ZU k) ∧
+    (∀ k ∈ p.U.map (·.1) ++ c.U.map (·.1), lookup p.U k = lookup c.U k) ∧
+    lookup p.U (21, 1) = some ⟨"m2", 1, 0⟩ ∧ lookup p.U (24, 0) = none ∧ lookup p.U (0, 2) = none ∧
+    curVer p "k" = some (22, 0) ∧ curVer p "j" = some (25, 0) := by decide
 
 end XV.C01
